@@ -268,7 +268,10 @@ impl Components {
                 self.data_streams
                     .package(self.flow_ctrl.sender.clone(), false),
             ),
-            // TODO: datagram
+            // repeat to send multi datagram frames in one packet; keep it the last source:
+            // a datagram frame without length fills the rest of the packet
+            #[cfg(feature = "datagram")]
+            Repeat(self.datagram_flow.clone()),
         ));
         DataSources {
             initial: Box::new(initial_packages),
